@@ -190,7 +190,7 @@ func run(cfg lib.Cfg) error {
 			base("growth-lognh-b5c2", "lognh", 5, 2, 9, 27, ts.Steps(1, 3)),
 		)
 	}
-	exhaustive := true
+	exhaustive := cfg.Thorough()
 	for _, b := range bases {
 		// fault-free reference run (with the retry tail, so that both runs end at quiescence)
 		ref := *b
@@ -204,6 +204,7 @@ func run(cfg lib.Cfg) error {
 		type point struct {
 			stepAct int // index into b.Acts of the step
 			dbOps   int
+			names   []string // names of the database operations, in order
 			calls   []ts.Call
 		}
 		var points []point
@@ -213,7 +214,13 @@ func run(cfg lib.Cfg) error {
 				continue
 			}
 			st := refRun.Steps[si]
-			points = append(points, point{ai, ts.DBOps(refRun.W.Rec.Events[st.First:st.Last]), st.Calls})
+			var names []string
+			for _, e := range refRun.W.Rec.Events[st.First:st.Last] {
+				if e.Kind == "op" && e.Op.Name != "RLatest" && e.Op.Name != "RHash" && e.Op.Name != "RGet" {
+					names = append(names, e.Op.Name)
+				}
+			}
+			points = append(points, point{ai, ts.DBOps(refRun.W.Rec.Events[st.First:st.Last]), names, st.Calls})
 			si++
 		}
 		refRun.Close()
@@ -227,6 +234,12 @@ func run(cfg lib.Cfg) error {
 			}
 			for i := 0; i < pt.dbOps; i++ {
 				for _, k := range dbKinds {
+					// inside a transaction "executed, then the connection is lost" leaves the
+					// same state as "lost before execution" (the write set is discarded); the
+					// quick tier runs the -after kinds only on Commit, where they differ
+					if !cfg.Thorough() && (k == "drop-after" || k == "crash-after") && i < len(pt.names) && pt.names[i] != "Commit" {
+						continue
+					}
 					derive(fmt.Sprintf("db%d-%s", i, k), ts.Act{Do: "fault", Tid: 1, At: i, Kind: k})
 				}
 			}
@@ -300,6 +313,6 @@ func run(cfg lib.Cfg) error {
 		judge(sc, "random-multi-fault", want)
 	}
 	out.Notes["exhaustive"] = exhaustive
-	out.Notes["enumeration"] = "per base history: every step x every SQL statement x {error, drop, drop-after, crash, crash-after} and every node call x {error, crash}"
+	out.Notes["enumeration"] = "per base history: every step x every SQL statement x {error, drop, crash} (+ {drop-after, crash-after} on every Commit; in the thorough tier on every statement) and every node call x {error, crash}"
 	return out.Flush()
 }
